@@ -1,5 +1,6 @@
 """C18 - in-place signing is all-or-nothing with respect to failures (fault enumeration)."""
 import copy
+import gc
 import json
 import os
 import shutil
@@ -171,6 +172,8 @@ def check_sweep(case):
         # ---- one run per line event ------------------------------------------------------------------------------------
         N = ref.events
         for k in range(1, N + 1):
+            if gran == "opcode":
+                gc.collect()
             with open(fn, "wb") as f:
                 f.write(original)
             stub.calls.clear()
@@ -197,6 +200,12 @@ def check_sweep(case):
                                     "complete output (%s)" % ((case["proc"],) + where + (k, N, cls)), bucket="partial output: " + cls)
             if first_sig and k - 1 > first_sig and k - 1 < w:
                 after_first_sig += 1
+            # A fault between open() and the with-block (possible at opcode granularity) leaks the file object; it lives on in
+            # the exception's traceback and would flush its buffer into the file of the NEXT iteration when finalized.
+            tr.exc = None
+            del tr
+            if gran == "opcode":
+                gc.collect()
         if sorted(os.listdir(d)) not in ([os.path.basename(fn)], sorted([os.path.basename(fn), "key.hex"])):
             raise Violation("signing left extra files behind: %r" % os.listdir(d), bucket="extra files")
     finally:
